@@ -371,7 +371,7 @@ int main(int argc, char ** argv)
   std::vector<int> ranks = {-1, 0, 1, 5};
   std::vector<double> grid = {1e-12, 0.17, 0.4, 0.63, 0.88, 1 - 1e-12};
   if (!full) {
-    axes = {{1, 0, 0}, {0, 0, 1}, {0, 0, -1}, {1, 1, 1}, {1e-9, 0, 1}, {-2, 1, -3}, {0.6, 0, -0.8}};
+    axes = {{1, 0, 0}, {0, 1, 0}, {0, 0, 1}, {0, 0, -1}, {1, 1, 1}, {1e-9, 0, 1}, {-2, 1, -3}, {0, -0.6, 0.8}};
     grid = {1e-12, 0.4, 0.88, 1 - 1e-12};
   }
   Stats S;
@@ -399,6 +399,53 @@ int main(int argc, char ** argv)
                 for (double u1 : grid) check_application(op, s, ev.second, ev.first, u0, u1, S);
           }
         }
+  // ---- reconfiguration chains: one operation object configured twice (and reset in between or not) must behave
+  //      exactly like a fresh object holding the second configuration (no stale field of the first survives)
+  {
+    std::vector<Setup> rs;
+    V3 ax1 = {1, 0, 0}, ax2 = {0.3, -0.8, 0.2};
+    for (int entry : {0, 1, 4}) rs.push_back({entry, 0, 0, ax1, 0.2, -1.0, false});
+    for (int entry : {2, 3, 4}) rs.push_back({entry, 0, 0, ax2, 0.2, 0.9, false});
+    for (int entry : {2, 4}) rs.push_back({entry, 3, -1, ax1, 0.9, 0.1, false});
+    rs.push_back({0, 1, 1, ax2, 1.2, -1.0, true});
+    rs.push_back({0, 3, -1, ax2, 0.05, -1.0, false});
+    for (size_t a = 0; a < rs.size(); a++)
+      for (size_t b = 0; b < rs.size(); b++)
+        for (int with_reset = 0; with_reset < 2; with_reset++)
+          for (auto & ev : events) {
+            MDL chained, fresh;
+            std::string why;
+            if (!configure(chained, rs[a], why)) continue;
+            {
+              // use it once with the first configuration
+              event tmp = ev.second;
+              Forced none;
+              PortRand r0;
+              r0.s.forced = &none;
+              r0.s.phase = 99;
+              r0.horizon = 20000;
+              try { chained(r0, tmp); } catch (...) {}
+            }
+            if (with_reset) chained.reset();
+            if (!configure(chained, rs[b], why) || !configure(fresh, rs[b], why)) continue;
+            for (uint64_t ph : {(uint64_t)5, (uint64_t)6, (uint64_t)7}) {
+              event e1 = ev.second, e2 = ev.second;
+              Forced none;
+              PortRand r1, r2;
+              r1.s.forced = r2.s.forced = &none;
+              r1.s.phase = r2.s.phase = ph;
+              r1.horizon = r2.horizon = 20000;
+              bool t1 = false, t2 = false;
+              try { chained(r1, e1); } catch (HorizonHit &) { t1 = true; } catch (std::exception &) { t1 = true; }
+              try { fresh(r2, e2); } catch (HorizonHit &) { t2 = true; } catch (std::exception &) { t2 = true; }
+              S.applications++;
+              if (t1 != t2 || r1.i != r2.i || !bit_identical(e1, e2) || chained.get_last_target_index() != fresh.get_last_target_index())
+                S.V("reconf:" + setup_key(rs[a]) + "->" + setup_key(rs[b]) + (with_reset ? ":reset" : ""),
+                    "event " + ev.first + ": an operation configured with [" + rs[a].describe() + "]" + (with_reset ? ", reset" : "") + " and then with [" + rs[b].describe()
+                        + "] behaves differently from a fresh operation holding the second configuration (stream " + std::to_string(ph) + ")");
+            }
+          }
+  }
   // ---- generator-level runs
   {
     std::vector<Config> cfgs;
